@@ -232,6 +232,42 @@ func retErr(ft reflect.Type, err error) []reflect.Value {
 // ErrKilled is returned by resolvers released at the end of a run.
 var ErrKilled = errors.New("killed")
 
+// Interceptor is a handler extension whose field and root-field interceptors fail where the plan
+// says so (before calling next), and pass everything else through.
+type Interceptor struct{ U *Uni }
+
+func (Interceptor) ExtensionName() string                          { return "SimInterceptor" }
+func (Interceptor) Validate(schema graphql.ExecutableSchema) error { return nil }
+
+func (x Interceptor) InterceptField(ctx context.Context, next graphql.Resolver) (any, error) {
+	u := x.U
+	if len(u.Plan.IcptFaults) > 0 {
+		path := graphql.GetFieldContext(ctx).Path().String()
+		switch u.Plan.IcptFaults[path] {
+		case refexec.KError:
+			u.raise(path, "I:error")
+			return nil, errors.New("I:error")
+		case refexec.KPanic:
+			u.PanicsThrown.Add(1)
+			u.raise(path, "I:panic")
+			panic("I:panic")
+		}
+	}
+	return next(ctx)
+}
+
+func (x Interceptor) InterceptRootField(ctx context.Context, next graphql.RootResolver) graphql.Marshaler {
+	u := x.U
+	if len(u.Plan.RootIcptPanics) > 0 {
+		if rc := graphql.GetRootFieldContext(ctx); rc != nil && u.Plan.RootIcptPanics[rc.Field.Alias] {
+			u.PanicsThrown.Add(1)
+			u.raise(rc.Field.Alias, "R:panic")
+			panic("R:panic")
+		}
+	}
+	return next(ctx)
+}
+
 // raise records a failure that user code (resolver or directive) really produced at path.
 func (u *Uni) raise(path, msg string) {
 	u.rmu.Lock()
